@@ -27,6 +27,21 @@ def mutations(fnode, name):
                   for t in (tt.elts if isinstance(tt, (ast.Tuple, ast.List)) else [tt]))]
     first = min(rebind) if rebind else None
     out = []
+    # plain aliases: `x = <param>` makes x the same object
+    aliases = set([name])
+    for n in walk_no_nested(fnode):
+        if isinstance(n, ast.Assign) and len(n.targets) == 1 and isinstance(n.targets[0], ast.Name) and isinstance(n.value, ast.Name) and n.value.id == name \
+           and (first is None or n.lineno < first):
+            aliases.add(n.targets[0].id)
+    if len(aliases) > 1:
+        for al in sorted(aliases - set([name])):
+            for n in walk_no_nested(fnode):
+                if isinstance(n, ast.Call) and isinstance(n.func, ast.Attribute) and n.func.attr in MUTATORS and isinstance(n.func.value, ast.Name) and n.func.value.id == al:
+                    out.append(n)
+                if isinstance(n, ast.AugAssign) and isinstance(n.target, ast.Name) and n.target.id == al: out.append(n)
+                if isinstance(n, (ast.Assign, ast.AugAssign, ast.Delete)):
+                    for t in (n.targets if isinstance(n, (ast.Assign, ast.Delete)) else [n.target]):
+                        if isinstance(t, ast.Subscript) and isinstance(t.value, ast.Name) and t.value.id == al: out.append(n)
     for n in walk_no_nested(fnode):
         if first is not None and getattr(n, 'lineno', 0) >= first: continue
         if isinstance(n, ast.Call) and isinstance(n.func, ast.Attribute) and n.func.attr in MUTATORS and isinstance(n.func.value, ast.Name) \
